@@ -386,9 +386,35 @@ func genLongPeriods(rng *rand.Rand) hlib.History {
 	return h
 }
 
+// genBigCrowd: more than a thousand sources tracked at once, well within a four- or five-digit capacity (nobody is
+// forgotten: every source that has used up its hourly token is still refused afterwards), or just beyond a capacity of
+// 1100-1300 (exactly the sources nearest to expiry are).
+func genBigCrowd(rng *rand.Rand) hlib.History {
+	var h hlib.History
+	hour := int64(3600e9)
+	start := int64(1600000000)*1e9 + rng.Int63n(3e9)
+	capacity := hlib.Pick(rng, 65536, 3000, 2048, 1100+int64(rng.Intn(200)))
+	nsrc := 1030 + rng.Intn(300)
+	h.Cfg = []int64{capacity, start, 1, hour, 1, 1}
+	for s := 0; s < nsrc; s++ {
+		h.Ops = append(h.Ops, []int64{0, int64(s), 1, -1})
+		if s%97 == 0 {
+			h.Ops = append(h.Ops, []int64{1, 1e9 + rng.Int63n(1e9)})
+		}
+	}
+	for k := 0; k < 12; k++ { // the first sources, some from the middle, the last ones: again
+		h.Ops = append(h.Ops, []int64{0, int64(k % 4), 1, -1}, []int64{0, int64(rng.Intn(nsrc)), 1, -1}, []int64{0, int64(nsrc - 1 - k%3), 1, -1})
+	}
+	hlib.Count("big_crowd_histories", 1)
+	return h
+}
+
 func (c *rlComp) Gen(rng *rand.Rand, idx int, tier string, targeted bool) hlib.History {
 	if !targeted && rng.Intn(6) == 0 {
 		return genDynamic(rng, tier)
+	}
+	if !targeted && rng.Intn(60) == 0 {
+		return genBigCrowd(rng)
 	}
 	if !targeted && rng.Intn(15) == 0 {
 		return genLongPeriods(rng)
@@ -626,7 +652,7 @@ func (c *rlComp) Run(h *hlib.History) ([]hlib.Mon, bool) {
 					return nil, false
 				}
 			}
-			if amount < 1 || src < 0 || src > 999 {
+			if amount < 1 || src < 0 || src > 9999 {
 				return nil, false
 			}
 			distinct[src] = true
